@@ -21,8 +21,11 @@ model), the return.
 `PromiseContainer`; `Await` returns a result that is present when it looks, or `Canceled`.
 `ResolveWithReleased` (198-254): the closure of `WaitWithReleased` sets a plain promise on the first
 result and, on the first later notification that is not "same generation, resolved", starts (once) a
-goroutine that releases the reference and calls `released`. The unsynchronised `ref` variable of
-`WaitWithReleased` (DESIGN §7 D15) is a memory-model matter and not modelled.
+goroutine that releases the reference and calls `released`. Since /repo 5e4f384 (repair of DESIGN §7
+D15, the unsynchronised `ref` variable) that goroutine first waits until `WaitWithReleased` has
+returned (`<-refSet`); the model lets its `Release` happen at any point after it was started — an
+over-approximation (the code's goroutine merely starts a little later); the data race itself is a
+memory-model matter and not modelled.
 -/
 namespace UtilModel.RefCount.Cons
 open UtilModel UtilModel.RefCount
